@@ -83,6 +83,10 @@ for pid, res in SEL.items():
     pkgs = sorted({k.split(".")[0] + "." for k in sel})
     # the non-function declarations (types, constants, variable initialisers) of every package touched
     sel += [k for k in keys if ("<decls>" in k or "<asm>" in k) and k.split(".")[0] + "." in pkgs and k not in sel]
+    # properties that rest on third-party code (sha3, blake512, x/sys/cpu feature detection): the dependency closure
+    if pid in ("C02", "C03", "C05", "C08", "C12", "C20"):
+        sel += [k for k in keys if k.startswith("module.<deps>")]
+        pkgs = sorted(set(pkgs))
     with open(os.path.join(LEAN, "I3", "Props", pid + "Pin.lean"), "w") as f:
         f.write(f"/-\n  I3.Props.{pid} (source pin) — the Go functions mirrored by the hand-written models of {pid} still have the\n"
                 f"  source text against which those models were validated, and no function was added to or removed\n"
